@@ -39,10 +39,12 @@ Print Assumptions C16_one_message.
 Theorem C16_blocks_holding_the_lock_refuted :
   stuck (drun true (seventeen ++ [DStreamUp])) = true /\ stream (drun true (seventeen ++ [DStreamUp])) = None.
 Proof. exact blocks_holding_the_lock_refuted. Qed.
+Print Assumptions C16_blocks_holding_the_lock_refuted.
 Theorem C16_order_lost_refuted :
   let s := drun true [DSubscribe 1; DStreamUp; DUnsubscribe 1; DSubscribe 1; DFlush] in
   desired s = [1] /\ stream s = Some [] /\ pending s = [].
 Proof. exact order_lost_refuted. Qed.
+Print Assumptions C16_order_lost_refuted.
 
 Example C16_order_kept :
   let s := drun false [DSubscribe 1; DStreamUp; DUnsubscribe 1; DSubscribe 1; DFlush] in
